@@ -470,13 +470,25 @@ func TestC17(t *testing.T) {
 				}
 				break
 			}
+			// now and then the other column is the column itself under a second name (a Copy shares its storage), or the
+			// comparison names the same column on both sides: null still equals nothing, itself included
+			alias := rapid.IntRange(0, 3).Draw(t, "colalias")
+			if alias <= 1 {
+				data2 = data
+			}
 			fr := qframe.New(map[string]interface{}{"e": data, "e2": data2, "id": hx.Iota(n)}, newqf.Enums(map[string][]string{"e": enumConf, "e2": enumConf}))
+			if alias == 0 {
+				fr = fr.Copy("e2", "e")
+			}
 			if fr.Err != nil {
 				t.Fatalf("two enum columns over one declared list: %v\n%s", fr.Err, full())
 			}
 			tab2 := hx.Table{Cols: []hx.Col{{Name: "e", Kind: hx.KEnum, S: data, Enum: enumConf}, {Name: "e2", Kind: hx.KEnum, S: data2, Enum: enumConf}, {Name: "id", Kind: hx.KInt, I: hx.Iota(n)}}}
 			comp := rapid.SampledFrom([]string{"<", "<=", ">", ">=", "=", "!="}).Draw(t, "colcomp")
 			cl := hx.ColArg("e", comp, "e2")
+			if alias == 1 {
+				cl = hx.ColArg("e", comp, "e")
+			}
 			cl.Inverse = rapid.IntRange(0, 3).Draw(t, "colinv") == 0
 			// non-identity index: reversed, or every second row
 			var sel []int
@@ -565,6 +577,7 @@ func TestC17(t *testing.T) {
 				}
 				break
 			}
+			cl = c17Combine(t, cl, ftab, &opDesc)
 			res := fq.Filter(cl.Build(hx.KindMap(ftab)))
 			if res.Err != nil {
 				t.Fatalf("filter failed: %v\n%s", res.Err, full())
@@ -593,6 +606,7 @@ func TestC17(t *testing.T) {
 			if ls == nil {
 				cl.LS = []string{}
 			}
+			cl = c17Combine(t, cl, ftab, &opDesc)
 			res := fq.Filter(cl.Build(hx.KindMap(ftab)))
 			if res.Err != nil {
 				t.Fatalf("filter failed: %v\n%s", res.Err, full())
@@ -612,6 +626,7 @@ func TestC17(t *testing.T) {
 			comp := rapid.SampledFrom([]string{"like", "ilike"}).Draw(t, "likecomp")
 			opDesc = fmt.Sprintf("filter e %s %q", comp, pat)
 			cl := hx.StrConst("e", comp, pat)
+			cl = c17Combine(t, cl, ftab, &opDesc)
 			res := fq.Filter(cl.Build(hx.KindMap(ftab)))
 			if res.Err != nil {
 				t.Fatalf("filter failed: %v\n%s", res.Err, full())
@@ -715,4 +730,37 @@ func clipInts(v []int) []int {
 		return v[:20]
 	}
 	return v
+}
+
+// c17Combine puts an enum comparison into a clause next to other comparisons, as the first or a later alternative of an
+// Or, as the first or a later condition of an And: an enum comparison answers for the rows it is asked about like a string
+// comparison does, wherever it stands (rows an earlier alternative has selected stay selected, rows an earlier condition
+// has dropped stay dropped).
+func c17Combine(t *rapid.T, cl hx.Clause, tab hx.Table, opDesc *string) hx.Clause {
+	if tab.Find("id") < 0 || tab.N() == 0 {
+		return cl
+	}
+	ids := tab.MustCol("id").I
+	other := hx.IntConst("id", rapid.SampledFrom([]string{"<", ">=", "!="}).Draw(t, "combcomp"), ids[rapid.IntRange(0, len(ids)-1).Draw(t, "combid")])
+	second := hx.NoArg("e", rapid.SampledFrom([]string{"isnull", "isnotnull"}).Draw(t, "combnull"))
+	how := rapid.SampledFrom([]string{"plain", "plain", "or(other,x)", "or(x,other)", "and(other,x)", "and(x,other)", "or(second,x)", "or(other,second,x)", "or(and(other,x),x)"}).Draw(t, "combine")
+	kids := func(op string, k ...hx.Clause) hx.Clause { return hx.Clause{Op: op, Kids: k} }
+	switch how {
+	case "or(other,x)":
+		cl = kids("or", other, cl)
+	case "or(x,other)":
+		cl = kids("or", cl, other)
+	case "and(other,x)":
+		cl = kids("and", other, cl)
+	case "and(x,other)":
+		cl = kids("and", cl, other)
+	case "or(second,x)":
+		cl = kids("or", second, cl)
+	case "or(other,second,x)":
+		cl = kids("or", other, second, cl)
+	case "or(and(other,x),x)":
+		cl = kids("or", kids("and", other, cl), cl)
+	}
+	*opDesc += " combined as " + how + ": " + cl.String()
+	return cl
 }
